@@ -342,12 +342,14 @@ def _operator_raised(items):
 
 
 def criterion_overwrite_witness(items) -> bool:
-    """True iff some application got 'terminate' from the criterion and then a later 'continue' in the same
-    application (the pattern on which the literal reading of C12's third clause can fail)."""
-    apps = applications(items)
-    for a in apps:
-        answers = [c[4] for c in a["crits"]]
-        if any(answers) and not answers[-1]:
+    """True iff in some application the criterion answered 'terminate' for a result that was NOT the last result of
+    that application.  What the loop should do with the results reported after that within the same application
+    (consult the criterion again? let a later 'continue' overwrite the answer?) is outside the callback protocol; this
+    is the pattern on which the literal reading of C12's third clause can fail
+    (C12_criterion_stops_needs_single_result), and such runs are not compared with the model."""
+    for a in applications(items):
+        rids = [e[1] for e in a["events"] if e[0] == "result"]
+        if any(c[4] and rids and c[1] != rids[-1] for c in a["crits"]):
             return True
     return False
 
@@ -384,30 +386,37 @@ def run_scripted_case(ctx, pid: str, case: dict, strict_multi: bool):
     if criterion_overwrite_witness(obs["items"]):
         # outside the callback protocol AND the one place where a repair of the loop (or-ing the answers) would
         # legitimately differ from the model: not compared with the model (C12_criterion_stops_needs_single_result)
-        ctx.tally("skipped-model-comparison:criterion-true-then-false-within-application")
+        ctx.tally("skipped-model-comparison:criterion-terminate-mid-application")
         return obs, None
     return obs, g_case(case, obs)
 
 
 # ================================================================================================ real EVQE runs
 def run_evqe(setup: dict):
-    """Run the real EVQE solver for `setup` (solverkit.random_evqe_setup) with deterministic fakes, recorded.
-    Returns (obs, case, extra): obs/case as for scripted runs (case rebuilt from the recording: what each application
-    reported), extra = dict(result=..., registry=..., parts=..., evaluator=...)."""
+    """Run the real solver for `setup` (solverkit.random_evqe_setup; family "evqe" = EVQEMinimumEigensolver, "package" =
+    base configuration around the package's speciation/selection) with deterministic fakes, recorded; then every problem
+    of setup["more"] with the SAME solver object.  Returns a list with one (obs, case, extra) per solve: obs/case as for
+    scripted runs (case rebuilt from the recording: what each application reported), extra = dict(result, registry,
+    parts, evaluator, which)."""
     rec, reg = sk.Recorder(), sk.Registry()
     crit = None if setup.get("criterion") is None else sk.ScriptedCriterion(setup["criterion"], rec, reg)
-    solver, call, parts = sk.build_evqe(setup, crit)
+    build = sk.build_package_solver if setup.get("family") == "package" else sk.build_evqe
+    solver, call, parts = build(setup, crit)
     sk.instrument_solver(solver, rec, reg)
-    seen_ctx = {}
-    # remember the evaluator the operators were given (to re-evaluate individuals with exactly that evaluator)
-    first = solver.configuration.evolutionary_operators[0]
-    inner = first.apply_operator
+    out = []
+    try:
+        for which, problem in enumerate([None] + list(setup.get("more", []))):
+            if problem is not None:
+                rec.reset()
+                reg.reset()
+                call, parts = sk.evqe_problem(solver, setup, problem)
+            out.append(_record_one(solver, call, parts, rec, reg, setup, which))
+    finally:
+        solver.configuration.parallel_executor.shutdown(wait=True)
+    return out
 
-    def spy(population, operator_context):
-        seen_ctx.setdefault("evaluator", operator_context.circuit_evaluator)
-        return inner(population=population, operator_context=operator_context)
 
-    first.apply_operator = spy
+def _record_one(solver, call, parts, rec, reg, setup, which):
     res = None
     try:
         res = call()
@@ -423,8 +432,6 @@ def run_evqe(setup: dict):
         outcome = {"ok": ok}
     except Exception as e:
         outcome = {"err": type(e).__name__, "msg": str(e)[:200]}
-    finally:
-        solver.configuration.parallel_executor.shutdown(wait=True)
     items = [[(float(x) if isinstance(x, float) else x) for x in it] for it in rec.items]
     obs = dict(items=items, outcome=outcome)
     apps = [dict(events=a["events"], ret=a["ret"]) for a in rec.applications()]
@@ -433,7 +440,7 @@ def run_evqe(setup: dict):
     case = dict(kind="evqe", setup=setup, n_ops=len(solver.configuration.evolutionary_operators), max_generations=setup["max_generations"],
                 max_evals=setup["max_evals"], criterion=setup.get("criterion"), init=None, aux=None, aux_tokens=False, pop0=0,
                 apps=apps, estimates=[it[2] for it in rec.items if it[0] == "est"])
-    return obs, case, dict(result=res, registry=reg, parts=parts, evaluator=seen_ctx.get("evaluator"), solver=solver)
+    return obs, case, dict(result=res, registry=reg, parts=parts, evaluator=rec.evaluator, which=which)
 
 
 def _diag_value(op, bitstring: str) -> float:
@@ -594,8 +601,8 @@ def run_property(ctx, pid: str, strict_multi: bool, n_scripted, n_evqe, enum_eve
         for c in enumerate_small(enum_events):
             scripted(c)
         ctx.notes["exhaustive_small_scope"] = f"all scripts of <= {enum_events} events over {{count, result(1.0), result(0.0)}}, every split into applications, 5 limit combinations: {len(glits) - n0} cases"
-    for _ in range(n_evqe):
-        evqe(ctx, pid, sk.random_evqe_setup(ctx.rng, quick=ctx.quick), glits, kept, strict_multi)
+    for i in range(n_evqe):   # every third one: the package-operator solver solving several problems in a row
+        evqe(ctx, pid, sk.random_evqe_setup(ctx.rng, quick=ctx.quick, family="package" if i % 3 == 0 else None), glits, kept, strict_multi)
     bad = core.model_mismatches(pid, IMPORTS, CHECKER[pid], glits, chunk=150)
     for i in bad[:5]:
         shown = None
@@ -609,34 +616,48 @@ def run_property(ctx, pid: str, strict_multi: bool, n_scripted, n_evqe, enum_eve
 
 
 def evqe(ctx, pid, setup, glits, kept, strict_multi):
-    try:
-        obs, case, extra = run_evqe(setup)
-    except Exception as e:
-        ctx.violation("oracle", f"harness-exception-{type(e).__name__}", f"EVQE run raised outside the solver: {type(e).__name__}: {e}", dict(kind="evqe", setup=setup))
-        return
-    out = obs["outcome"]
     replay = dict(kind="evqe", setup=setup)
-    if "err" in out and out["err"] != NOTHING:
-        ctx.violation("oracle", f"unexpected-exception-{out['err']}", f"EVQE solve raised {out['err']}: {out.get('msg')}", replay)
-    lim = limits_of(case)
-    if pid == "C05":
-        bad = oracle_c05(lim, obs, strict_shape=True)
-        try:
-            bad += oracle_evqe_c05(setup, obs, extra)
-        except Exception as e:
-            bad.append((f"oracle-exception-{type(e).__name__}", f"evaluating the result raised {type(e).__name__}: {e}"))
-    else:
-        bad = oracle_c12(lim, obs, protocol_only=not strict_multi)
-        if not is_single_result(obs["items"]):
-            bad.append(("evqe-multi-result", "an EVQE operator reported two results within one application"))
-    for key, msg in bad:
-        ctx.violation("oracle", key, msg, replay, detail=dict(items=obs["items"], outcome=out))
-    ctx.tally("evqe:" + setup["evaluator"])
-    ctx.tally("evqe-outcome:" + ("ok" if "ok" in out else out["err"]))
+    try:
+        solves = run_evqe(setup)
+    except Exception as e:
+        ctx.violation("oracle", f"harness-exception-{type(e).__name__}", f"EVQE run raised outside the solver: {type(e).__name__}: {e}", replay)
+        return
+    started = False
+    for obs, case, extra in solves:
+        out = obs["outcome"]
+        nth = "" if extra["which"] == 0 else f" (solve #{extra['which'] + 1} with the same solver object)"
+        if "err" in out and out["err"] != NOTHING:
+            ctx.violation("oracle", f"unexpected-exception-{out['err']}", f"EVQE solve raised {out['err']}: {out.get('msg')}{nth}", replay)
+        lim = limits_of(case)
+        if pid == "C05":
+            bad = oracle_c05(lim, obs, strict_shape=True)
+            try:
+                bad += oracle_evqe_c05(setup, obs, extra)
+            except Exception as e:
+                bad.append((f"oracle-exception-{type(e).__name__}", f"evaluating the result raised {type(e).__name__}: {e}"))
+        else:
+            bad = oracle_c12(lim, obs, protocol_only=not strict_multi)
+            if not is_single_result(obs["items"]):
+                bad.append(("evqe-multi-result", "an EVQE operator reported two results within one application"))
+        for key, msg in bad:
+            ctx.violation("oracle", key, msg + nth, replay, detail=dict(items=obs["items"], outcome=out, solve=extra["which"]))
+        # hypothesis evqe_shape of the *_evqe theorems: every application of a package operator reports nothing, one
+        # count, or one count followed by one result
+        for a in applications(obs["items"]):
+            kinds = [e[0] for e in a["events"]]
+            if kinds not in ([], ["count"], ["count", "result"]):
+                ctx.violation("correspondence", "evqe-shape", f"operator {a['start'][1]} reported {kinds} in one application: outside Ledger.evqe_shape, the hypothesis under which "
+                              "C05_ledger_shape_evqe / C12_max_generations_evqe / C12_criterion_stops_evqe are proved", replay)
+                break
+        ctx.tally("evqe-outcome:" + ("ok" if "ok" in out else out["err"]))
+        ctx.tally("evqe-solves")
+        started = started or any(it[0] == "start" for it in obs["items"]) or out.get("err") == NOTHING
+        glits.append(g_case(case, obs))
+        kept.append(replay)
+    ctx.tally("evqe:" + setup.get("family", "evqe") + ":" + setup["evaluator"])
     ctx.tally(f"evqe-workers:{setup['workers']}")
-    ctx.case(dict(k="e", setup=setup), any(it[0] == "start" for it in obs["items"]) or out.get("err") == NOTHING, sample=None if any(isinstance(x, dict) and "setup" in x for x in ctx.samples) else dict(setup=setup, outcome=out))
-    glits.append(g_case(case, obs))
-    kept.append(replay)
+    first_out = solves[0][0]["outcome"] if solves else None
+    ctx.case(dict(k="e", setup=setup), started, sample=None if any(isinstance(x, dict) and "setup" in x for x in ctx.samples) else dict(setup=setup, outcome=first_out))
 
 
 def replay_property(ctx, pid, payload, strict_multi):
